@@ -214,7 +214,13 @@ func zzPickerRun(steps int, sequential, rich bool) {
 		for p := range t.pieceDownloaders {
 			had[p] = true
 		}
-		switch vrt.Choice("event", 7) {
+		ev := 0
+		if zzPickerScript != nil {
+			ev = zzPickerScript[step]
+		} else {
+			ev = vrt.Choice("event", 7)
+		}
+		switch ev {
 		case 0:
 			vrt.Assume(!pe.Closed)
 			t.handlePeerMessage(peer.Message{Peer: pe, Message: peerprotocol.HaveMessage{Index: uint32(vrt.Choice("piece", zzPickPieces))}})
@@ -297,3 +303,22 @@ func ZZPickerRich0() { zzPickerRun(0, false, true) }
 
 // ZZPickerRich0Sequential: the same in sequential mode.
 func ZZPickerRich0Sequential() { zzPickerRun(0, true, true) }
+
+var zzPickerScript []int
+
+// ZZPickerStalledThenIdle: the rich initial state, then one peer's download
+// stalls (snub) and a peer completes its piece (hash ok or not) and asks for
+// the next one - the situation in which stalled downloads and the end-game
+// duplicate limit interact; which peer does what is arbitrary.
+func ZZPickerStalledThenIdle() {
+	zzPickerScript = []int{4, 6}
+	zzPickerRun(2, false, true)
+	zzPickerScript = nil
+}
+
+// ZZPickerChokedThenIdle: the same with a choke instead of the snub.
+func ZZPickerChokedThenIdle() {
+	zzPickerScript = []int{2, 6}
+	zzPickerRun(2, false, true)
+	zzPickerScript = nil
+}
